@@ -119,10 +119,14 @@ def _req_olb(ctx, st):
     m = st.r * st.nper
     ctx.index_terms.append(z3.IntVal(0))
     line_start = lambda t: Ite(I(t) == 0, 0, st.NL(I(t) - 1) + 1)
-    return [st.r >= 1, st.N == st.NL(m - 1) + 1,
+    st.cr = z3.Function("line_ends_with_CR", z3.IntSort(), z3.BoolSort())
+    # CRLF input: the first header line ends with CR; every other line may or may not (a file without a final line terminator gets a bare
+    # "\n" appended by the reader, so its last line has no CR).  LF input: no line ends with CR.
+    return [st.r >= 1, st.N == st.NL(m - 1) + 1, st.cr(0) == st.crlf,
             Forall(lambda t: Implies(in_range(t, m), And(in_range(st.NL(t), st.N), st.D(st.NL(t)) == 10, Implies(t + 1 < m, st.NL(t) < st.NL(t + 1)),
-                                                         (st.D(st.NL(t) - 1) == 13) == st.crlf, st.NL(t) >= line_start(t) + 1, Implies(st.crlf, st.NL(t) >= line_start(t) + 2))),
-                   triggers=[st.NL], name="new_lines: increasing newline positions; uniform line ends; no empty line (a header line has at least its marker)")]
+                                                         (st.D(st.NL(t) - 1) == 13) == st.cr(t), Implies(st.cr(t), st.crlf),
+                                                         st.NL(t) >= line_start(t) + 1, Implies(st.cr(t), st.NL(t) >= line_start(t) + 2))),
+                   triggers=[st.NL], name="new_lines: increasing newline positions; CR only in CRLF input; no empty line (a header line has at least its marker)")]
 
 
 def _ens_olb(ctx, st, ret):
@@ -134,7 +138,7 @@ def _ens_olb(ctx, st, ret):
     for l in range(n):
         goals.append(("line.%d.of.every.entry.is.field.%d (marker offset %d, CR stripped)" % (l, l, st.offs[l]),
                       Forall(lambda e, l=l: Implies(in_range(e, st.r), And(fs.at2(e, l) == line_start(I(e) * n + l) + st.offs[l],
-                                                                       I(fs.at2(e, l)) + I(fl.at2(e, l)) == st.NL(I(e) * n + l) - Ite(st.crlf, 1, 0))))))
+                                                                       I(fs.at2(e, l)) + I(fl.at2(e, l)) == st.NL(I(e) * n + l) - Ite(st.cr(I(e) * n + l), 1, 0))))))
     goals += [("entry.starts.at.its.first.line", Forall(lambda e: Implies(in_range(e, st.r), es.at(e) == line_start(I(e) * n)))),
               ("entry.ends.after.the.newline.of.its.last.line", Forall(lambda e: Implies(in_range(e, st.r), I(ee.at(e)) - 1 == st.NL(I(e) * n + n - 1))))]
     return goals
@@ -145,7 +149,8 @@ def _mk_olb(name):
                     requires=_req_olb, ensures=_ens_olb,
                     hints=lambda ctx, st, ks: [st.NL(I(k) * st.nper + l) for k in ks[:1] for l in range(-1, st.nper)],
                     decorators={"@classmethod": "receiver is the real subclass"},
-                    canaries=[("marker offset dropped", "+(np.array(cls._line_offsets))", "+(0*np.array(cls._line_offsets))"),
+                    canaries=[("CR assumed on every line once seen", "return field_ends - (data[field_ends-1] == '\\r')", "return field_ends - 1", lambda: _olb(name)._modify_for_carriage_return.__func__),
+                              ("marker offset dropped", "+(np.array(cls._line_offsets))", "+(0*np.array(cls._line_offsets))"),
                               ("entry ends one line early", "entry_ends = tmp[::cls.n_lines_per_entry][1:]", "entry_ends = tmp[cls.n_lines_per_entry-1::cls.n_lines_per_entry]")])
 
 
